@@ -32,6 +32,15 @@ class Answers(srv.SrvHarness):
                         oracles=O, bound=2 if quick else 3, cap=cap * 2))
         out.append(dict(topo='single', capacity=2, nworkers=2, gated=['A'], env_wait=True,
                         calls=[[[0, BIG, False], [1, BIG, False]], [[2, BIG, False]]], oracles=O, bound=d1, cap=cap))
+        # a request rejected by the worker's preprocess, followed by overlapping requests
+        out.append(dict(topo='single', capacity=3, prefail={'A': [0]}, calls=[[[0, BIG, False], [1, BIG, False]], [[2, BIG, False], [3, BIG, False]]],
+                        oracles=O, bound=d1, cap=cap))
+        out.append(dict(topo='seq', capacity=3, prefail={'B': [1]}, calls=[[[0, BIG, False]], [[1, BIG, False]], [[2, BIG, False]]],
+                        oracles=O, bound=d1, cap=cap))
+        # a saturated server: two callers wait for a slot at the same time and are admitted together
+        out.append(dict(topo='single', capacity=2, nworkers=2, gated=['A'], env_wait=True,
+                        calls=[[[0, BIG, False]], [[1, BIG, False]], [[2, BIG, False]], [[3, BIG, False]]], oracles=O,
+                        bound=0 if quick else 1, cap=cap))
         # (b) sequential, two workers per stage, reordering inside
         out.append(dict(topo='seq', capacity=3, nworkers=2, gated=['A'], env_wait=True,
                         calls=[[[0, BIG, False]], [[1, BIG, False]], [[2, BIG, False]]], oracles=O, bound=d1, cap=cap))
